@@ -6,6 +6,11 @@ import sys
 
 HERE = os.path.dirname(os.path.dirname(os.path.abspath(__file__)))
 sys.path.insert(0, HERE)
+sys.path.insert(0, os.path.join(HERE, '.deps'))
+try:
+    import networkx  # noqa: F401 - the monitors import it
+except ImportError:      # started with an interpreter that lacks the repository's dependencies: use the repository's own
+    os.execv('/venv/bin/python', ['/venv/bin/python'] + sys.argv)
 props = [json.loads(l) for l in open(os.path.join(HERE, 'properties.jsonl'))]
 BASE = "cd /repo && /venv/bin/python -m pytest -ra -q -p no:cacheprovider --timeout=900 --continue-on-collection-errors"
 checks, na = [], []
